@@ -301,10 +301,18 @@ def compare_with_model(outdir):
         s_obs, b_obs = obs[0], obs[1]
         ref = obs[2] if len(obs) > 2 else ""
         if spec is None or spec == "?":
+            # an unexported strategy: compared with the structure-faithful model only; a
+            # difference is a diagnostic (localises a fault / a refactoring), never a verdict
+            im = m.get("I")
+            if im is not None and "|" in im:
+                a, b = im.split("|", 1)
+                if s_obs != a or b_obs != b:
+                    refdis.append({"case": case, "strcase": s_obs, "bytcase": b_obs, "impl_model": im,
+                                   "kind": "internal strategy != Impl model"})
             continue
         if s_obs != spec or b_obs != spec:
             mism.append({"case": case, "strcase": s_obs, "bytcase": b_obs, "spec": spec, "impl_model": m.get("I")})
-        elif "I" in m and m["I"] != spec:
+        elif "I" in m and m["I"] != spec and "|" not in m["I"]:
             # the structure-faithful model disagrees with Spec while the code agrees:
             # a defect of the model (machinery), never a violation
             refdis.append({"case": case, "spec": spec, "impl_model": m["I"], "kind": "Impl-model != Spec"})
